@@ -44,6 +44,7 @@ pub enum Scen {
     /// two client tasks share a 1000-byte datagram send buffer and send 600-byte datagrams with
     /// `send_datagram_wait`: each wakeup may find the buffer taken again by the other task
     S5,
+    S6,
 }
 
 impl Scen {
@@ -56,10 +57,11 @@ impl Scen {
             Scen::S4a => "S4a",
             Scen::S4r => "S4r",
             Scen::S5 => "S5",
+            Scen::S6 => "S6",
         }
     }
     pub fn parse(s: &str) -> Option<Self> {
-        [Scen::S1, Scen::S1w, Scen::S2, Scen::S3, Scen::S4a, Scen::S4r, Scen::S5].into_iter().find(|x| x.name() == s)
+        [Scen::S1, Scen::S1w, Scen::S2, Scen::S3, Scen::S4a, Scen::S4r, Scen::S5, Scen::S6].into_iter().find(|x| x.name() == s)
     }
 }
 
@@ -1337,6 +1339,103 @@ async fn s5_server_conn(o: Arc<Obs>, inc: Incoming, ep: Endpoint) {
     o.stage("done");
 }
 
+/// Sleep on the harness runtime's virtual clock
+async fn vsleep(o: &Arc<Obs>, d: Duration) {
+    let rt = o.world.runtime();
+    let mut t = rt.new_timer(rt.now() + d);
+    std::future::poll_fn(|cx| t.as_mut().poll(cx)).await
+}
+
+// S6: a stream the peer stopped is dropped without reset(); the stream credit it occupies must
+// come back (the implicit RESET_STREAM has to reach the peer) although nothing else is going on
+
+async fn s6_client(o: Arc<Obs>, ep: Endpoint, cc: ClientConfig, saddr: SocketAddr) {
+    let connecting = match ep.connect_with(cc, saddr, "localhost") {
+        Ok(c) => c,
+        Err(e) => return o.fail("O1:connect-call", format!("connect_with: {e:?}")),
+    };
+    let conn = match aw!(o, "cli.connect", connecting) {
+        Ok(c) => c,
+        Err(e) => return o.fail("O1:connect", format!("connect failed: {}", cerr(&e))),
+    };
+    let mut s = match op!(o, "cli.open_uni", conn.open_uni()) {
+        Ok(s) => s,
+        Err(e) => return o.fail("O1:open_uni", format!("first open_uni: {}", cerr(&e))),
+    };
+    if let Err(e) = op!(o, "cli.write", s.write_all(&[0x11; 300])) {
+        return o.fail("O2:write", format!("write on the first stream: {e:?}"));
+    }
+    match op!(o, "cli.stopped", s.stopped()) {
+        Ok(Some(code)) if code == VarInt::from_u32(7) => {}
+        other => o.fail("O2:stopped", format!("stopped() = {other:?}, the peer stopped the stream with code 7")),
+    }
+    // let every acknowledgement owed go out first: the connection is completely idle when the
+    // handle is dropped
+    aw!(o, "cli.sleep", vsleep(&o, Duration::from_millis(200)));
+    // no reset(), no finish(): dropping the handle resets the stream implicitly
+    drop(s);
+    // the only stream slot the peer allows is occupied until that reset reaches it
+    let mut s2 = match op!(o, "cli.open_uni2", conn.open_uni()) {
+        Ok(s) => s,
+        Err(e) => return o.fail("O1:open_uni", format!("second open_uni: {}", cerr(&e))),
+    };
+    if let Err(e) = op!(o, "cli.write2", s2.write_all(&[0x22; 200])) {
+        o.fail("O2:write", format!("write on the second stream: {e:?}"));
+    }
+    if let Err(e) = s2.finish() {
+        o.fail("O2:finish", format!("finish on the second stream: {e:?}"));
+    }
+    let e = aw!(o, "cli.closed", conn.closed());
+    if cerr(&e) != "app(0,\"got-all\")" {
+        o.fail("O1:closed", format!("client closed() = {}, expected the server's close after it read the second stream", cerr(&e)));
+    }
+    drop(s2);
+    drop(conn);
+    aw!(o, "cli.wait_idle", ep.wait_idle());
+    drop(ep);
+    o.stage("done");
+}
+
+async fn s6_server_conn(o: Arc<Obs>, inc: Incoming, ep: Endpoint) {
+    let conn = match aw!(o, "srv.handshake", inc.into_future()) {
+        Ok(c) => c,
+        Err(e) => {
+            ep.close(VarInt::from_u32(77), b"ep");
+            return o.fail("O1:accept", format!("incoming.await: {}", cerr(&e)));
+        }
+    };
+    match op!(o, "srv.accept_uni", conn.accept_uni()) {
+        Ok(mut r) => {
+            let mut buf = [0u8; 100];
+            match op!(o, "srv.read", r.read(&mut buf)) {
+                Ok(Some(n)) if n > 0 => {}
+                other => o.fail("O2:read", format!("first read on the first stream: {other:?}")),
+            }
+            if let Err(e) = r.stop(VarInt::from_u32(7)) {
+                o.fail("O2:stop", format!("stop: {e:?}"));
+            }
+            drop(r);
+        }
+        Err(e) => {
+            o.fail("O1:accept_uni", format!("first accept_uni: {}", cerr(&e)));
+        }
+    }
+    match op!(o, "srv.accept_uni2", conn.accept_uni()) {
+        Ok(mut r) => match op!(o, "srv.read_to_end", r.read_to_end(10_000)) {
+            Ok(d) if d == vec![0x22u8; 200] => {}
+            Ok(d) => o.fail("O2:data", format!("second stream delivered {} bytes, 200 of 0x22 were written", d.len())),
+            Err(e) => o.fail("O2:read_to_end", format!("second stream: {e:?}")),
+        },
+        Err(e) => {
+            o.fail("O1:accept_uni", format!("second accept_uni: {}", cerr(&e)));
+        }
+    }
+    conn.close(VarInt::from_u32(0), b"got-all");
+    drop(conn);
+    ep.close(VarInt::from_u32(0), b"");
+    o.stage("done");
+}
+
 async fn accept_loop(o: Arc<Obs>, ep: Endpoint) {
     let mut n = 0u32;
     loop {
@@ -1357,6 +1456,7 @@ async fn accept_loop(o: Arc<Obs>, ep: Endpoint) {
             Scen::S3 => o.world.spawn_app(&name, s3_server_conn(o2, inc, e2)),
             Scen::S4a | Scen::S4r => o.world.spawn_app(&name, s4_server_conn(o2, inc, e2)),
             Scen::S5 => o.world.spawn_app(&name, s5_server_conn(o2, inc, e2)),
+            Scen::S6 => o.world.spawn_app(&name, s6_server_conn(o2, inc, e2)),
         };
     }
     op!(o, "srv.wait_idle", ep.wait_idle());
@@ -1394,6 +1494,9 @@ pub fn pair_cfg(scen: Scen) -> PairCfg {
     }
     if scen == Scen::S5 {
         cfg.client.dgram_send = Some(1000);
+    }
+    if scen == Scen::S6 {
+        cfg.server.max_uni = Some(1);
     }
     if matches!(scen, Scen::S4a | Scen::S4r) {
         // a ticket remembering the server's (real) transport parameters
@@ -1436,6 +1539,7 @@ pub fn run_spec(base: Instant, spec: &Spec, keep_trace: bool) -> Outcome {
             Scen::S3 => world.spawn_app("cli.main", s3_client(obs.clone(), cep, cc, saddr)),
             Scen::S4a | Scen::S4r => world.spawn_app("cli.main", s4_client(obs.clone(), cep, cc, saddr)),
             Scen::S5 => world.spawn_app("cli.main", s5_client(obs.clone(), cep, cc, saddr)),
+            Scen::S6 => world.spawn_app("cli.main", s6_client(obs.clone(), cep, cc, saddr)),
         };
         drop(rt);
         world.block_send_at(spec.send_block);
